@@ -11,6 +11,10 @@
 //   fresh control saves a second file that must have the same layout.  If $C05X_KEEP is set the first file is
 //   copied there for phase 2.
 // phase 2: a fresh PROCESS loads the kept file and restores.
+// part "io" (cases of spec/Persist.tla, the registered check replays them through streams): the FILE NAME overloads
+//   write_out(mode, filename) / read_from(mode, filename) of DenseVector, DenseVectorBlocked<2>, SparseVector and
+//   SparseMatrixCSR in their binary and text modes: the file on disk is compared with the predicted file (binary layout
+//   resp. token sequence), the container read back from the file name with the predicted state.
 // expect = "reject": save / load (field rejop) with a file name the specification declares invalid must be reported
 //   (XASSERT aborts); returning from the call is the failure.
 #include "vmpi.hpp"
@@ -22,6 +26,7 @@
 #include <control/checkpoint_control.hpp>
 #include <filesystem>
 #include <fstream>
+#include <sstream>
 
 using namespace vl;
 static const long long DEN = 4;
@@ -148,6 +153,90 @@ static std::string check_section(const vj::Value& rk, const char* data, std::siz
   }
   if(p != size) return tag + ": trailing bytes in the section";
   return "";
+}
+
+// ---- text files: header line + token sequence (as in c05_persist.cpp) ---------------------------------------------
+static std::string check_text(const vj::Value& f, const std::string& text, const std::string& tag)
+{
+  std::vector<std::string> lines; { std::istringstream is(text); std::string l; while(std::getline(is, l)) lines.push_back(l); }
+  if(!text.empty() && text.back() != '\n') return tag + ": text output does not end with a newline";
+  std::size_t p = 0; const std::string hdr = f["hdr"].as_str();
+  if(!hdr.empty()) { if(lines.empty() || lines[0] != hdr) return tag + ": header line is '" + (lines.empty() ? std::string() : lines[0]) + "' expected '" + hdr + "'"; p = 1; }
+  const vj::Value& ls = f["lines"];
+  if(lines.size() - p != ls.size()) return tag + ": " + std::to_string(lines.size() - p) + " lines after the header, expected " + std::to_string(ls.size());
+  for(std::size_t q = 0; q < ls.size(); ++q)
+  {
+    std::istringstream is(lines[p + q]); std::vector<std::string> tok; std::string t; while(is >> t) tok.push_back(t);
+    IVec ei = ls[q]["i"].ints(), ex = ls[q]["x"].ints();
+    if(tok.size() != ei.size() + ex.size()) return tag + ": line " + std::to_string(p + q) + " '" + lines[p + q] + "' has " + std::to_string(tok.size()) + " tokens, expected " + std::to_string(ei.size() + ex.size());
+    for(std::size_t j = 0; j < ei.size(); ++j) { char* end = nullptr; long long v = std::strtoll(tok[j].c_str(), &end, 10); if(*end != 0 || v != ei[j]) return tag + ": line " + std::to_string(p + q) + " '" + lines[p + q] + "': integer token " + std::to_string(j) + " expected " + std::to_string(ei[j]); }
+    for(std::size_t j = 0; j < ex.size(); ++j) { char* end = nullptr; double v = std::strtod(tok[ei.size() + j].c_str(), &end); if(*end != 0 || v * double(DEN) != double(ex[j])) return tag + ": line " + std::to_string(p + q) + " '" + lines[p + q] + "': value token expected " + std::to_string(double(ex[j]) / double(DEN)); }
+  }
+  return "";
+}
+template<class DT, class IT> vj::Value view_of(const DenseVector<DT, IT>& v, bool& ex)
+{ vj::Value r = vj::Value::object(); r["m"] = vj::Value((long long)v.size()); vj::Value a = vj::Value::array(); for(Index i = 0; i < v.size(); ++i) a.push(vj::Value(to_num(double(v(i)), ex))); r["va"] = a; return r; }
+template<class DT, class IT, int BS> vj::Value view_of(const DenseVectorBlocked<DT, IT, BS>& v, bool& ex)
+{
+  vj::Value r = vj::Value::object(); r["m"] = vj::Value((long long)v.size()); vj::Value a = vj::Value::array();
+  const DT* e = v.template elements<Perspective::pod>(); Index n = v.template size<Perspective::pod>();
+  Index have = v.get_elements_size().empty() ? Index(0) : v.get_elements_size()[0];
+  for(Index i = 0; i < have; ++i) a.push(vj::Value(to_num(double(e[i]), ex)));
+  if(have != n) ex = false;
+  r["va"] = a; return r;
+}
+template<class DT, class IT> vj::Value view_of(const SparseVector<DT, IT>& v, bool& ex)
+{
+  vj::Value r = vj::Value::object(); r["m"] = vj::Value((long long)v.size()); vj::Value a = vj::Value::array(), x = vj::Value::array();
+  for(Index i = 0; i < v.used_elements(); ++i) { x.push(vj::Value((long long)v.indices()[i])); a.push(vj::Value(to_num(double(v.elements()[i]), ex))); }
+  r["idx"] = x; r["va"] = a; return r;
+}
+template<class DT, class IT> vj::Value view_of(const SparseMatrixCSR<DT, IT>& v, bool& ex)
+{
+  vj::Value r = vj::Value::object(); r["m"] = vj::Value((long long)v.rows()); r["n"] = vj::Value((long long)v.columns());
+  vj::Value rep = vj::Value::object(), rp = vj::Value::array(), ci = vj::Value::array(), va = vj::Value::array();
+  if(v.row_ptr() != nullptr) for(Index i = 0; i <= v.rows(); ++i) rp.push(vj::Value((long long)v.row_ptr()[i]));
+  else for(Index i = 0; i <= v.rows(); ++i) rp.push(vj::Value(0ll));
+  for(Index i = 0; i < v.used_elements(); ++i) { ci.push(vj::Value((long long)v.col_ind()[i])); va.push(vj::Value(to_num(double(v.val()[i]), ex))); }
+  rep["rp"] = rp; rep["ci"] = ci; rep["va"] = va; r["rep"] = rep; return r;
+}
+static FileMode file_mode(const std::string& m)
+{
+  if(m == "exp") return FileMode::fm_exp; if(m == "mtx") return FileMode::fm_mtx; if(m == "dv") return FileMode::fm_dv;
+  if(m == "dvb") return FileMode::fm_dvb; if(m == "sv") return FileMode::fm_sv; if(m == "csr") return FileMode::fm_csr;
+  if(m == "binary") return FileMode::fm_binary;
+  throw std::runtime_error("unknown mode " + m);
+}
+static bool slurp(const std::string& path, std::vector<char>& out);
+// write_out(mode, FILE NAME) / read_from(mode, FILE NAME) of one container
+template<class CT>
+std::string run_iofile(const vj::Value& c, const std::string& dir, const std::string& tag)
+{
+  const std::string mode = c["mode"].as_str(); const vj::Value& f = c["file"];
+  const std::string path = dir + "/container." + mode;
+  CT a = Ops<CT>::build(c);
+  bool ex = true; vj::Value pre = state_of(a, ex);
+  if(!ex || pre != c["arrays"]) return "precond: " + tag + ": container state " + js(pre) + " is not the state the specification assumes " + js(c["arrays"]);
+  a.write_out(file_mode(mode), String(path));
+  { bool e2 = true; if(state_of(a, e2) != pre) return tag + ": writing modified the container"; }
+  std::vector<char> bytes; if(!slurp(path, bytes)) return tag + "/write: file " + path + " does not exist";
+  const bool bin = f["fmt"].as_str() == "bin";
+  std::string w = bin ? check_bin(f, bytes.data(), bytes.size(), tag + "/write") : check_text(f, std::string(bytes.begin(), bytes.end()), tag + "/write");
+  if(!w.empty()) return w;
+  CT b; b.read_from(file_mode(mode), String(path));
+  bool e3 = true; vj::Value post = bin ? state_of(b, e3) : view_of(b, e3);
+  if(!e3 || post != c["back"]) return tag + "/read: container read back " + js(post) + " expected " + js(c["back"]);
+  return "";
+}
+template<class DT, class IT>
+std::string run_iofile_kind(const vj::Value& c, const std::string& dir, const std::string& tag)
+{
+  const std::string kind = c["kind"].as_str();
+  if(kind == "dv") return run_iofile<DenseVector<DT, IT>>(c, dir, tag + "/dv/" + c["mode"].as_str());
+  if(kind == "dvb" && c["bh"].as_int() == 2) return run_iofile<DenseVectorBlocked<DT, IT, 2>>(c, dir, tag + "/dvb2/" + c["mode"].as_str());
+  if(kind == "sv") return run_iofile<SparseVector<DT, IT>>(c, dir, tag + "/sv/" + c["mode"].as_str());
+  if(kind == "csr") return run_iofile<SparseMatrixCSR<DT, IT>>(c, dir, tag + "/csr/" + c["mode"].as_str());
+  return "harness: unsupported container kind " + kind;
 }
 
 // ---- objects ------------------------------------------------------------------------------------------------------
@@ -314,8 +403,21 @@ std::string run_ckfile(const vj::Value& c, const Dist::Comm& comm, const std::st
   return fail.why;
 }
 
+static std::string run_io_case(const vj::Value& c, const Dist::Comm& comm)
+{
+  const char* base = std::getenv("C05X_DIR"); std::string t = std::string(base ? base : "/tmp") + "/c05x_XXXXXX";
+  std::vector<char> dirbuf(t.begin(), t.end()); dirbuf.push_back(0);
+  if(::mkdtemp(dirbuf.data()) == nullptr) return "rank 0: harness: cannot create a scratch directory";
+  const std::string dir(dirbuf.data());
+  std::string w = (c["cdt"].as_int() == 8) ? run_iofile_kind<double, std::uint64_t>(c, dir, "f64/u64") : run_iofile_kind<float, std::uint32_t>(c, dir, "f32/u32");
+  std::error_code ec; std::filesystem::remove_all(dir, ec);
+  (void)comm;
+  return w.empty() ? w : "rank 0: " + w;
+}
+
 static std::string run_case(const vj::Value& c, const Dist::Comm& comm)
 {
+  if(c["part"].as_str() == "io") return run_io_case(c, comm);
   if(c["cdt"].as_int() == 8) return run_ckfile<double, std::uint64_t>(c, comm, "f64/u64");
   return run_ckfile<float, std::uint32_t>(c, comm, "f32/u32");
 }
